@@ -141,6 +141,10 @@ func FragBound(f JPFrag, node any) string {
 		}
 		sortStrings(ms)
 		return strings.Join(ms, "+") + "@" + kind
+	case "filter":
+		if nestedRootFilter(f.F) {
+			return "nested-filter-reads-$@" + kind
+		}
 	}
 	return "@" + kind
 }
@@ -179,7 +183,34 @@ func nodeUsesRoot(n *scriptref.Node) bool {
 	if n.Path != nil && n.Path.Root {
 		return true
 	}
+	if n.Path != nil {
+		for _, st := range n.Path.Steps {
+			if nodeUsesRoot(st.Filter) { // a nested filter that reads the document
+				return true
+			}
+		}
+	}
 	return nodeUsesRoot(n.L) || nodeUsesRoot(n.R)
+}
+
+// nestedRootFilter reports whether the script holds a nested filter with a
+// $-rooted operand.
+// NestedRootFilter reports whether the fragment is a filter that holds a nested
+// filter with a $-rooted operand.
+func (f JPFrag) NestedRootFilter() bool { return f.K == "filter" && nestedRootFilter(f.F) }
+
+func nestedRootFilter(n *scriptref.Node) bool {
+	if n == nil {
+		return false
+	}
+	if n.Path != nil {
+		for _, st := range n.Path.Steps {
+			if nodeUsesRoot(st.Filter) || nestedRootFilter(st.Filter) {
+				return true
+			}
+		}
+	}
+	return nestedRootFilter(n.L) || nestedRootFilter(n.R)
 }
 
 // RootFilter reports whether the fragment is a filter with a $-rooted
